@@ -110,6 +110,24 @@ def aliasing_assignments(stmt, dst_key, src_key):
     return out
 
 
+def cross_assignments(stmt, dst_key, src_key):
+    """Assignments `dst.F... = src.G...` whose right-hand side is a plain read of a DIFFERENT field path of the source."""
+    out = []
+    if src_key is None:
+        return out
+    for x in stmt.walk() if hasattr(stmt, 'walk') else []:
+        if is_assign(x) and x.op == '=':
+            lk = lvalue_key(x.child('lhs'))
+            rk = lvalue_key(_strip_casts(x.child('rhs')))
+            if not lk or not rk:
+                continue
+            fl = next((lk[len(dst_key + sep):] for sep in ('->', '.') if lk.startswith(dst_key + sep)), None)
+            fr = next((rk[len(src_key + sep):] for sep in ('->', '.') if rk.startswith(src_key + sep)), None)
+            if fl is not None and fr is not None and fl != fr:
+                out.append((fl, fr, x))
+    return out
+
+
 def check_copy(ctx, db, rule, label, loc, rec_t, stmt, dst_key, src_key, exempt=(), shallow_ok=()):
     rec = db.record(rec_t)
     canon_name = {}
@@ -123,6 +141,8 @@ def check_copy(ctx, db, rule, label, loc, rec_t, stmt, dst_key, src_key, exempt=
     w = field_writes(stmt, dst_key, src_key, canon_name)
     alias = aliasing_assignments(stmt, dst_key, src_key)
     n = 0
+    for fl, fr, x in cross_assignments(stmt, dst_key, src_key):
+        ctx.violation(rule, '%s/cross:%s<-%s' % (label, fl, fr), x.loc(), 'field `%s` of the copy is filled from field `%s` of the source' % (fl, fr))
     for names, members in groups.items():
         if any(m in exempt for m in names):
             continue
